@@ -641,9 +641,17 @@ class Interp(Engine):
         """proof annotations of the sidecar contract: `asserts_after[var]` clauses are
         proved (then assumed) right after an assignment to `var` in the carrier itself."""
         c = self.cur_contract
-        if c is None or fr.func is None or fr.func.key != self.cur_key or self.spec_mode:
+        if c is None or fr.func is None or self.spec_mode:
             return
-        ann = c.options.get("asserts_after")
+        where = ""
+        if fr.func.key == self.cur_key:
+            ann = c.options.get("asserts_after")
+        else:
+            # options["asserts_after_in"] = {"callee_name": {var: [clauses]}}: the same kind of proof annotation after an
+            # assignment inside a callee that is INLINED into this carrier (clauses see the callee's locals; `old` = carrier's entry state)
+            callee = fr.func.key.split(":")[-1]
+            ann = (c.options.get("asserts_after_in") or {}).get(callee)
+            where = f"in-{callee}/"
         if not ann:
             return
         names = [x.id for t in targets for x in ast.walk(t) if isinstance(x, ast.Name)]
@@ -654,7 +662,7 @@ class Interp(Engine):
                 lab, text = split_label(cl, f"a{j}")
                 self.cur_frame = fr
                 val = eval_clause(self, text, self.visible_vars(), fr.globs, old_vars=self.top_old, extra=self.spec_extra)
-                self.prove(f"{c.short}/annot/after-{nm}/{lab}", val, "annotation")
+                self.prove(f"{c.short}/annot/{where}after-{nm}/{lab}", val, "annotation")
 
     def ex_AnnAssign(self, s, fr):
         if s.value is not None:
